@@ -158,5 +158,35 @@ def upgrade (L : Limits) (dial think : Nat) (ps : List TPiece) : Answer × List 
   | .backend => let r := tunnel L.reqCtx o.answerAt ps; (.backend, r.1, r.2)
   | .gatewayTimeout => (.gatewayTimeout, [], !ps.isEmpty)
 
+/-! ### taking over the user connection
+
+    `httputil.ReverseProxy.handleUpgradeResponse`: `hj, ok := rw.(http.Hijacker); if !ok { p.getErrorHandler()(rw, req,
+    "can't switch protocols using non-Hijacker ResponseWriter") ; return }` — the 101 of the backend becomes frp's
+    error answer (404 page) and the backend connection, which already switched protocols, is dropped.
+    `h2c.h2cUpgrade` / `initH2CWithPriorKnowledge` need the same capability.  `http.ResponseController`
+    finds it through `Unwrap() http.ResponseWriter`; a type assertion (the two callers above) does not. -/
+
+/-- what the `http.ResponseWriter` handed to `rp.proxy.ServeHTTP` can do -/
+structure RW where
+  hijacker : Bool     -- implements http.Hijacker itself
+deriving DecidableEq, Repr
+
+/-- `http.Server`'s own writer (`*http.response`) -/
+def serverRW : RW := { hijacker := true }
+
+/-- pkg/util/vhost/http.go `HTTPReverseProxy.ServeHTTP`: `rp.proxy.ServeHTTP(rw, newreq)` — the writer it was
+    given by the `http.Server`, unwrapped -/
+def frpRW : RW := serverRW
+
+/-- a protocol upgrade through a proxy whose handler got the writer `w`: `none` = the error answer
+    (no tunnel, the backend connection is closed) -/
+def upgradeThrough (w : RW) (L : Limits) (dial think : Nat) (ps : List TPiece) :
+    Option (Answer × List (Dir × Str) × Bool) :=
+  if w.hijacker then some (upgrade L dial think ps) else none
+
+/-- the bytes of one direction, in order -/
+def dirData (d : Dir) (rel : List (Dir × Str)) : Str :=
+  (rel.filter (fun p => p.1 = d)).flatMap (·.2)
+
 end HttpTime
 end Frp
